@@ -14,6 +14,9 @@ Sources transcribed (pyyeti/ode/solveunc.py):
                                   `Props/C17Cdf.cdf_alpha_transpose_solve` / `cdf_alpha_identity` say what
                                   the transposed solve computes (no symmetry of `bo` needed)
 
+Added with the second extension: `cdfAcc` (`_calc_acce_kdof`, cd-as-force branch), `cdfAddon` (add-on branch of the
+generator = what `get_f2x` tabulates), `f2xTmp` / `cdfF2x` (`_get_f2x_real_unc`).
+
 Written once over a vector type `V` with `+`, `-`; the diagonal coefficient arrays of
 `get_su_coef` act as operators `V → V` (componentwise products in the driver, linear maps in the
 theorems), as do the off-diagonal damping `bo` and `alpha`.
@@ -93,5 +96,59 @@ def alphaMat (Bp : Array α) (bo : Mat α) (solveWith : Mat α → Vec α → Ve
   bo.map fun row => (solveWith (transposeMat (tmpMat Bp bo)) ⟨row⟩).a
 
 end alpha
+
+/-! ### acceleration recovery (`_calc_acce_kdof`) and `get_f2x` of the cd-as-force solver -/
+section recovery
+variable {V : Type} [Add V] [Sub V]
+
+/-- `a[kdof] = invm * (F − b_full @ v − k * d)` (`b_full` = the off-diagonal damping with the diagonal put back);
+`invm = none` when `m is None` -/
+def cdfAcc (bfull k : V → V) (invm : Option (V → V)) (p d v : V) : V :=
+  let r := p - bfull v - k d
+  match invm with
+  | some i => i r
+  | none => r
+
+/-- what one step adds to `(d, v)` when `f` is added to the force at the END of the step
+(`get_f2x` / the add-on branch `j < 0` of the generator): `(B (f − α Bp f), Bp f − Bp α Bp f)` -/
+def cdfAddon (C : Ops V) (f : V) : V × V :=
+  let vpart := C.Bp f
+  let q := C.alpha vpart
+  (C.B (f - q), vpart - C.Bp q)
+
+end recovery
+
+section f2x
+open PyYetiVerif.Newmark
+variable {α : Type} [Add α] [Sub α] [Mul α] [OfNat α 0] [OfNat α 1]
+
+/-- `tmp = B[:, None] * (np.eye(n) - alpha * Bp)` of `_get_f2x_real_unc` (`Bsel` is `pc.B`, or `pc.Bp` for
+`velo=True`): entry `(i, j)` is `Bsel_i (δ_ij − alpha_ij Bp_j)` -/
+def f2xTmp (Bsel Bp : Array α) (alpha : Mat α) : Mat α :=
+  (Array.range alpha.size).map fun i => (Array.range alpha.size).map fun j =>
+    Bsel.getD i 0 * ((if i = j then (1 : α) else 0) - (alpha.getD i #[]).getD j 0 * Bp.getD j 0)
+
+/-- `X @ Y` (rows of `X` against columns of `Y`) -/
+def matMul (X Y : Mat α) : Mat α :=
+  X.map fun row => (Array.range ((Y.getD 0 #[]).size)).map fun j =>
+    (Array.zipWith (· * ·) row (matCol Y j).a).foldl (· + ·) 0
+
+/-- `X.T` for a rectangular matrix -/
+def transposeMat' (X : Mat α) : Mat α := (Array.range ((X.getD 0 #[]).size)).map fun j => (matCol X j).a
+
+/-- `flex = phik @ tmp @ phik.T` -/
+def cdfF2x (phik : Mat α) (Bsel Bp : Array α) (alpha : Mat α) : Mat α :=
+  matMul (matMul phik (f2xTmp Bsel Bp alpha)) (transposeMat' phik)
+
+/-- `_add_rf_flex` (diagonal system, `velo = False`): `phirf @ (ikrf[:, None] * phirf.T)` with `ikrf = 1.0 / krf` -/
+def rfFlex [Div α] (krf : Array α) (phirf : Mat α) : Mat α :=
+  matMul phirf (Array.zipWith (fun ki row => row.map fun x => (1 / ki) * x) krf (transposeMat' phirf))
+
+/-- `get_f2x(phi, velo)` of the cd-as-force solver: `phik @ tmp @ phik.T`, plus the rf flexibility for displacements -/
+def cdfGetF2x [Div α] (phik phirf : Mat α) (Bsel Bp krf : Array α) (alpha : Mat α) (velo : Bool) : Mat α :=
+  let flex := cdfF2x phik Bsel Bp alpha
+  if velo || krf.size == 0 then flex else matZip (· + ·) flex (rfFlex krf phirf)
+
+end f2x
 
 end PyYetiVerif.Cdf
